@@ -20,7 +20,7 @@ def run(ctx):
     n = 150 if ctx.tier == 'quick' else 4000
     worlds = []
     for i in range(n):
-        allow = ('many',) if g.r.random() < 0.15 else ()
+        allow = ('many',) if g.r.random() < 0.15 else (('big',) if g.r.random() < 0.08 else ())
         spec = cw.make_spec(g, allow)
         worlds.append(cw.render('c10-%d' % i, spec, ORACLES))
     run_suite(ctx, 'clean.C10', worlds, known=known, chunk=200)
